@@ -29,7 +29,7 @@ _ADAPTER = None
 def _init_worker(adapter_mod, adapter_args, repo):
     global _ADAPTER
     os.environ['VERIF_REPO'] = repo
-    cwd = os.path.join(WORK, 'cwd-%d' % os.getpid())
+    cwd = os.path.join(os.environ.get('VERIF_RUNDIR') or WORK, 'cwd-%d' % os.getpid())
     os.makedirs(cwd, exist_ok=True)
     os.chdir(cwd)
     if repo not in sys.path:
